@@ -10,10 +10,9 @@ import (
 func init() { families = append(families, family{"C15", genC15}) }
 
 // genC15: what the C15 model assumes about verifier/crl/crl.go beyond the call skeletons of
-// Skeletons.lean - the JSON field names of fileCacheContent, the two tests of checkExpiry with
-// what each returns (the boundary `time.Now().After(nextUpdate)` cannot be exercised by wall
-// clock), the order of decode / parse / expiry steps in Get with the guards on the delta CRL,
-// and the nil guards of Set.
+// Skeletons.lean and the translated functions of go2lean_c15.go (Get, Set, checkExpiry, fileName
+// are tied semantically there): the JSON field names of fileCacheContent, which the harness's
+// labelling parse mirrors and which the translation hides inside the json oracles.
 func genC15() string {
 	const file = "verifier/crl/crl.go"
 	f := parseFile(file)
@@ -48,67 +47,5 @@ func genC15() string {
 	}
 	fmt.Fprintf(&b, "/-- `fileCacheContent`: (field, type, json tag) -/\ndef crlContentFields : List (String × String × String) := [%s]\n\n", strings.Join(fields, ", "))
 
-	// checkExpiry: every `if cond { ... return X }` in source order, then the final return
-	ce := mustFunc(f, file, "", "checkExpiry")
-	var tests []string
-	final := ""
-	for _, st := range ce.Body.List {
-		switch s := st.(type) {
-		case *ast.IfStmt:
-			ret := "?"
-			if s.Init != nil || s.Else != nil {
-				ret = "unexpected-shape"
-			}
-			for _, bs := range s.Body.List {
-				if r, ok := bs.(*ast.ReturnStmt); ok && len(r.Results) == 1 {
-					ret = exprText(r.Results[0])
-					if c, ok := r.Results[0].(*ast.CallExpr); ok {
-						ret = callName(c) // the message of errors.New does not matter
-					}
-				}
-			}
-			tests = append(tests, fmt.Sprintf("(%s, %s)", leanStr(exprText(s.Cond)), leanStr(ret)))
-		case *ast.ReturnStmt:
-			if len(s.Results) == 1 {
-				final = exprText(s.Results[0])
-			}
-		}
-	}
-	if len(tests) == 0 {
-		fail("%s: checkExpiry has no tests", file)
-	}
-	fmt.Fprintf(&b, "/-- `checkExpiry`: (condition, what is returned when it holds), in source order -/\ndef crlCheckExpiryTests : List (String × String) := [%s]\n\n", strings.Join(tests, ", "))
-	fmt.Fprintf(&b, "/-- `checkExpiry`: the final return -/\ndef crlCheckExpiryFinal : String := %s\n\n", leanStr(final))
-
-	// Get: decode / parse / expiry calls in source order, and every if-condition in source order
-	get := mustFunc(f, file, "FileCache", "Get")
-	var steps []string
-	for _, c := range callsIn(get.Body, "os.", "json.", "x509.", "checkExpiry", "file.") {
-		steps = append(steps, exprText(c))
-	}
-	fmt.Fprintf(&b, "/-- `FileCache.Get`: read, decode, parse and expiry calls in source order -/\ndef crlGetSteps : List String := %s\n\n", leanStrList(steps))
-	fmt.Fprintf(&b, "/-- `FileCache.Get`: every if-condition in source order -/\ndef crlGetConds : List String := %s\n\n", leanStrList(ifConds(get.Body)))
-
-	set := mustFunc(f, file, "FileCache", "Set")
-	fmt.Fprintf(&b, "/-- `FileCache.Set`: every if-condition in source order -/\ndef crlSetConds : List String := %s\n\n", leanStrList(ifConds(set.Body)))
-	var setSteps []string
-	for _, c := range callsIn(set.Body, "json.", "file.", "os.") {
-		setSteps = append(setSteps, callName(c))
-	}
-	fmt.Fprintf(&b, "/-- `FileCache.Set`: encode and write calls in source order -/\ndef crlSetSteps : List String := %s\n", leanStrList(setSteps))
 	return b.String()
-}
-
-func ifConds(body *ast.BlockStmt) []string {
-	var out []string
-	ast.Inspect(body, func(n ast.Node) bool {
-		if _, ok := n.(*ast.FuncLit); ok {
-			return false
-		}
-		if s, ok := n.(*ast.IfStmt); ok {
-			out = append(out, exprText(s.Cond))
-		}
-		return true
-	})
-	return out
 }
